@@ -102,6 +102,74 @@ Theorem C14_evaluator_step : forall c r,
   end.
 Proof. exact evaluator_step_classification. Qed.
 
+(* WHY an evaluation has too few realizations, in terms of the failure masks.  A function request for one vector:
+   (a) the realization filter leaves no successful realization with a positive weight, or
+   (b) fewer than realization_min_success realizations succeeded, or
+   (c) the stddev estimator is left with fewer than two realizations, or
+   (d) realization_min_success = 0, the method does not accept NaN and every realization failed -- and nothing else *)
+Theorem C14_too_few_function_request : forall c r ca fm pm,
+  rk r = KF -> flt r = FMasks [fm] pm ->
+  ((exists rs, too_few c r ca rs) <->
+   filter_few (chosen c fm) = true \/
+   (filter_few (chosen c fm) = false /\
+    (count_ok fm < rmin c \/
+     (rmin c <= count_ok fm /\ all_failed fm = false /\ cest c = Stddev /\ nz c (chosen c fm) fm < min_stddev) \/
+     (rmin c = 0 /\ allow_nan c = false /\ all_failed fm = true)))).
+Proof. exact too_few_function_request. Qed.
+
+(* ... a gradient-only request at the cached point: a realization counts as failed when its function value failed or
+   fewer than perturbation_min_success of its perturbations succeeded ([failed_grad]); too few exactly when fewer than
+   realization_min_success are left, or the stddev estimator is left with fewer than two, or realization_min_success = 0,
+   the method does not accept NaN and none is left (the all-failed test applies to gradient results as well) *)
+Theorem C14_too_few_gradient_request : forall c r p cfm cch fms pm,
+  rk r = KG -> flt r = FMasks fms pm -> p = pt r ->
+  let fg := failed_grad c cfm pm in
+  (forall i, i < nreal c -> nth i fg true = failed_at cfm i || (count_ok (nth i pm []) <? pmin c)) /\
+  ((exists rs, too_few c r (Some (p, cfm, cch)) rs) <->
+   count_ok fg < rmin c \/
+   (rmin c <= count_ok fg /\ cest c = Stddev /\ nz c cch fg < min_stddev) \/
+   (rmin c = 0 /\ allow_nan c = false /\ all_failed fg = true)).
+Proof.
+  intros c r p cfm cch fms pm Hk Hf Hp fg. split.
+  - intros i Hi. exact (failed_grad_nth c cfm pm i Hi).
+  - exact (too_few_gradient_request c r p cfm cch fms pm Hk Hf Hp).
+Qed.
+
+(* ... and on the delivered results themselves: the optimizer step stops with TOO_FEW_REALIZATIONS exactly when a result
+   has no functions / gradients, or all its realizations failed while realization_min_success = 0 and the method does not
+   accept NaN; the evaluator step exactly when a result has no functions *)
+Theorem C14_too_few_by_result_flags : forall c rs,
+  (few_opt c rs = true <->
+   exists r, In r rs /\ (r_has r = false \/ (rmin c = 0 /\ allow_nan c = false /\ r_allf r = true))) /\
+  (few_eval rs = true <-> exists r, In r rs /\ r_has r = false).
+Proof. intros c rs. split; [apply few_opt_spec | apply few_eval_spec]. Qed.
+
+(* NESTED OPTIMIZATIONS (to any depth; [rec] is the behaviour of the nested runs, arbitrary).  A request of a step with
+   a nested optimization: the budget is checked before the nested run starts; an exception of the nested run passes
+   through; a nested USER_ABORT ends the step with USER_ABORT whatever the tracker holds -- in particular it wins over
+   NESTED_OPTIMIZER_FAILED; a nested run that ended otherwise and has left the tracker empty gives
+   NESTED_OPTIMIZER_FAILED; otherwise the request is evaluated exactly as without nesting *)
+Theorem C14_nested_priority : forall rec c r st rest n ca hs own io id itr hst iown,
+  rec st (tl hs) = (io, id, itr, (hst, iown)) ->
+  let h := hd false hs || iown in
+  run_items rec c ((r, Some st) :: rest) n ca hs own =
+  if over_budget c n then (Exit MaxFunctions, [], [], (hs, own)) else
+  match io with
+  | Raise => (Raise, id, [TInner io itr], (h :: hst, own))
+  | Exit UserAbort => (Exit UserAbort, id, [TInner io itr], (h :: hst, own))
+  | Exit _ =>
+      if h then
+        let '(o, d, e, s') := run_items rec c ((r, None) :: rest) n ca (h :: hst) own in
+        (o, id ++ d, TInner io itr :: e, s')
+      else (Exit NestedFailed, id, [TInner io itr], (h :: hst, own))
+  end.
+Proof. exact run_items_nested. Qed.
+
+(* a step without nested optimization, seen as a tree, is the plain machine all theorems above are about *)
+Theorem C14_leaf_is_plain_step : forall c script hs,
+  tree_step (leaf c script) hs = run_optimizer_step c script.
+Proof. exact tree_step_leaf. Qed.
+
 (* the exit codes and events of the model are members of the enums of the current source *)
 Theorem C14_codes_documented :
   (forall c, exists z, In (code_name c, z) enum_OptimizerExitCode) /\
@@ -118,7 +186,7 @@ Qed.
    max_functions = 2 the same script is stopped by the budget before the failing evaluation. *)
 Example C14_example :
   let c := {| nreal := 2; rmin := 2; pmin := 1; allow_nan := false; maxf := None; cfilt := NoFilter;
-              cest := Mean; order := [0; 1] |} in
+              cest := Mean; order := [0; 1]; zerow := [] |} in
   let ok := FMasks [[false; false]] [[false]; [false]] in
   let script := [ {| rk := KF; pt := 0; batch := 0; flt := ok |};
                   {| rk := KFG; pt := 1; batch := 0; flt := ok |};
@@ -129,13 +197,27 @@ Example C14_example :
      [mkres RF true false; mkres RF true false; mkres RG true false; mkres RF false false],
      [StartOpt; StartEval; FinEval; StartEval; FinEval; StartEval; FinEval; FinOpt]) /\
   fst (fst (run_optimizer_step {| nreal := 2; rmin := 2; pmin := 1; allow_nan := false; maxf := Some 2;
-                                  cfilt := NoFilter; cest := Mean; order := [0; 1] |} script))
+                                  cfilt := NoFilter; cest := Mean; order := [0; 1]; zerow := [] |} script))
     = Exit MaxFunctions /\
   first_stop_is c script (stop_few c).
 Proof.
   cbv zeta. split; [vm_compute; reflexivity|]. split; [vm_compute; reflexivity|].
   apply (C14_exit_classification _ _). vm_compute. reflexivity.
 Qed.
+
+(* non-vacuity, nested: three plan levels; the innermost run is aborted by the evaluator at its first evaluation, before any
+   tracker holds a result: every level reports USER_ABORT (not NESTED_OPTIMIZER_FAILED), no FINISHED_EVALUATION is
+   invented, every started step is finished, innermost first, and both nested plans are marked aborted *)
+Example C14_example_nested :
+  let c := {| nreal := 1; rmin := 1; pmin := 1; allow_nan := false; maxf := None; cfilt := NoFilter;
+              cest := Mean; order := [0]; zerow := [] |} in
+  let ok := FMasks [[false]] [[false]] in
+  let rq f := {| rk := KF; pt := 0; batch := 0; flt := f |} in
+  let t := NS c [(rq ok, Some (NS c [(rq ok, Some (NS c [(rq FAbort, None); (rq ok, None)]))]))] in
+  run_tree_step t =
+    (Exit UserAbort, [], [StartOpt; StartOpt; StartOpt; StartEval; FinOpt; FinOpt; FinOpt]) /\
+  (let '(_, _, l, _) := run_tree t [] in aborted_below 2 l) = [true; true].
+Proof. vm_compute. split; reflexivity. Qed.
 
 Print Assumptions C14_exit_classification.
 Print Assumptions C14_first_stop_observation.
@@ -145,4 +227,9 @@ Print Assumptions C14_budget_counted.
 Print Assumptions C14_results_before_abort.
 Print Assumptions C14_exceptions_propagate.
 Print Assumptions C14_evaluator_step.
+Print Assumptions C14_too_few_function_request.
+Print Assumptions C14_too_few_gradient_request.
+Print Assumptions C14_too_few_by_result_flags.
+Print Assumptions C14_nested_priority.
+Print Assumptions C14_leaf_is_plain_step.
 Print Assumptions C14_codes_documented.
